@@ -69,17 +69,23 @@ def run(ctx):
                     why.append("write_shape seeks (%s) other than to reserve a header" % info)
     ctx.ob("C11.I5", "write_shape", good, "; ".join(sorted(set(why))) or "seeks only to 0 right before a header group", site=wsite,
            key="C11.I5|write_shape")
-    roots, g = util.writer_graph(F)
-    seekers = set()
-    nfn = 0
-    for f in util.generic_only(F, g.values()):
-        nfn += 1
-        for b, t in mir.calls(f):
-            if mir.callee_decl(t) in ("std::io::Seek::seek", "std::io::Seek::rewind", "std::io::Seek::seek_relative"):
-                seekers.add(f["def"])
-    allowed = {fw["def"], ff["def"]}
-    ctx.ob("C11.I5", "who seeks", seekers <= allowed and ff["def"] in seekers, "functions that seek on the writer graph (%d functions): %s"
-           % (nfn, sorted(seekers)), site=fsite, key="C11.I5|who-seeks")
+    # no other public method of the writers seeks: analyse each with write_shape / finalize left opaque
+    seekers = []
+    nmeth = 0
+    for f in util.api_roots(F, ("writer::ShapeWriter", "writer::Writer"), traits_for=("std::ops::Drop",)):
+        if f["def"] in (fw["def"], ff["def"]):
+            continue
+        nmeth += 1
+        try:
+            ps, _ = util.run_fn(F, f, inline=lambda g, t: g["def"] not in (fw["def"], ff["def"]))
+        except absint.Unanalysable as e:
+            ctx.unanalysable("C11.I5", f["def"], str(e))
+            continue
+        for p in ps:
+            if any(e[0] == 'io' and e[1] in ('seek', 'rewind') for e in absint.flat_effects(p.eff)):
+                seekers.append(f["def"])
+    ctx.ob("C11.I5", "who seeks", not seekers, "%d other public writer methods analysed (write_shape / finalize opaque); methods that "
+           "seek on their own: %s" % (nmeth, sorted(set(seekers))), site=fsite, key="C11.I5|who-seeks")
     ctx.ob("C11.I5", "finalize seeks absolutely", all(info in ('start0', 'end0') for t in tr['finalize'] for d, k, info in t['ops'] if k == 'seek'),
            "every seek in finalize is Start(0) or End(0)", site=fsite, key="C11.I5|finalize")
     # --- I6 -----------------------------------------------------------------------------------
